@@ -2559,6 +2559,9 @@ class SSHConnection(SSHPacketHandler, asyncio.Protocol):
         if self._auth:
             self._auth.cancel()
 
+        self._key_options = {}
+        self._cert_options = None
+
         self._auth = lookup_server_auth(cast(SSHServerConnection, self),
                                              self._username, method, packet)
 
